@@ -3,8 +3,8 @@
 Theorems: coq/props/C12.v over coq/model/Hooks.v.  Tie: the extracted model and the real
 fickling.hook / fickling.context / fickling.loader are run on the same operation histories
 (children: harness/c12_child.py); after every step the identity class of pickle.load,
-pickle.loads, _pickle.load, _pickle.loads and the behaviour of probe loads of six pickles through
-all four entry points are compared.  Oracle (model-free): `oracle()` below."""
+pickle.loads, _pickle.load, _pickle.loads, pickle.Unpickler and the behaviour of probe loads of six
+pickles through all five entry points are compared.  Oracle (model-free): `oracle()` below."""
 import json
 import os
 import subprocess
@@ -15,7 +15,8 @@ from harness import asm
 from harness.common import PY, VERIF, Check, Driver, env_child, report_broken_obligations, sx, wire
 
 CHILD = os.path.join(VERIF, "harness", "c12_child.py")
-SLOTS = ["pl", "pls", "cl", "cls"]
+SLOTS = ["pl", "pls", "cl", "cls", "unp"]
+INITIAL_IDS = [0, 1, 0, 1, 2]         # tokens of the originals (c12_child.SEEN); _pickle.load IS pickle.load
 SINK = ("verif_sink", "record")
 OD = ("fractions", "Fraction")        # stdlib, NOT in ML_ALLOWLIST (checked at run time)
 FR = ("decimal", "Decimal")
@@ -23,10 +24,25 @@ NP = ("numpy", "dtype")
 PICKLE_GLOBALS = [[], [OD], [SINK], [NP], [OD, FR], [NP, SINK]]
 ADDS = [None, ["fractions.Fraction"], ["verif_sink.record"],
         ["fractions.Fraction", "decimal.Decimal"], []]
-KNOWN_WITNESS = {
-    "activate-inside-context": ["enter", ["act", 0], "leave"],
-    "arm-inside-context": ["enter", "arm", "leave"],
-}
+# histories that were findings before the repair of fickling/context.py (C12-activate-inside-context,
+# C12-arm-inside-context), and the other shapes a context manager can get wrong: a manager constructed
+# early and entered after something else was switched on ("mk" ... "enterp"), one manager object
+# entered twice ("reenter"), something switched on or removed inside the block.  Always run, in fresh
+# children, observed after every step, against the model AND the oracle.
+TARGETED = [
+    ["enter", ["act", 0], "leave"],
+    ["enter", "arm", "leave"],
+    [["act", 1], "enter", ["act", 0], "leavex"],
+    ["arm", "enter", "rm", "leave"],
+    [["act", 2], "enter", "rm", "enter", "leave", "leave"],
+    ["mk", ["act", 0], "enterp", "leave"],
+    ["mk", "arm", "enterp", "leavex"],
+    ["mk", "mk", "arm", "enterp", ["act", 3], "enterp", "rm", "leave", "leave"],
+    ["mk", "enter", "enterp", "leave", "leave"],
+    ["enter", "reenter", "leave", "leave"],
+    ["arm", "enter", ["act", 1], "reenter", "rm", "leave", ["probe", "unp", 2], "leavex"],
+    ["enter", ["act", 0], "enter", "leave", ["probe", "pl", 2], "leave", ["probe", "unp", 2]],
+]
 
 
 def build_pickle(globs):
@@ -90,19 +106,22 @@ def random_history(rng, maxlen, maxdepth=3):
     h, depth = [], 0
     for _ in range(n):
         r = rng.random()
-        if r < 0.10:
+        if r < 0.04:
+            op = "mk"
+        elif r < 0.10:
             op = rng.choice(["arm", "arm2"])
         elif r < 0.24:
             op = ["act", rng.randrange(len(ADDS))]
         elif r < 0.34:
             op = rng.choice(["rm", "rm2"])
         elif r < 0.54:
-            op = "enter" if depth < maxdepth else rng.choice(["leave", "leavex"])
+            op = (rng.choice(["enter", "enter", "enterp", "reenter"]) if depth < maxdepth
+                  else rng.choice(["leave", "leavex"]))
         elif r < 0.74:
             op = rng.choice(["leave", "leavex"]) if depth > 0 else "enter"
         else:
             op = ["probe", rng.choice(SLOTS), rng.randrange(len(PICKLE_GLOBALS))]
-        if op == "enter":
+        if op in ("enter", "enterp", "reenter"):
             depth += 1
         elif op in ("leave", "leavex"):
             depth -= 1
@@ -112,7 +131,7 @@ def random_history(rng, maxlen, maxdepth=3):
 
 def kind(op):
     k = op if isinstance(op, str) else op[0]
-    return {"arm2": "arm", "rm2": "rm"}.get(k, k)
+    return {"arm2": "arm", "rm2": "rm", "enterp": "enter", "reenter": "enter"}.get(k, k)
 
 
 # ---------------------------------------------------------------- running both sides
@@ -134,7 +153,7 @@ def run_children(chunks, pickles, observe, workers=14):
 
 def op_sx(op, flags):
     k = kind(op)
-    if k in ("arm", "rm", "enter", "leave", "leavex"):
+    if k in ("arm", "rm", "enter", "leave", "leavex", "mk"):
         return k
     if k == "act":
         return ["act", [[wire(m), wire(n)] for m, n in adds_pairs(op[1])]]
@@ -243,47 +262,46 @@ def check_probe(cls, pr, k, flags, base, where):
 
 def oracle(hist, steps, flags, base):
     """C12 evaluated on the observations of one history, no model involved.
-    Returns (why, step, signature) -- signature names a recorded finding or is None."""
+    Returns (why, step, signature) -- signature names a recorded finding or is None (no finding of
+    this property is open at present, so it always is None).
+
+    "In force" is scoped: what is switched on or off inside a context ends with the context, i.e.
+    leaving re-instates the mechanisms (and must re-instate the bindings) of the matching entry."""
     armed, ml, depth = False, None, 0
-    armed_inside = ml_inside = removed_inside = False
-    saved = []
-    prev = [0, 1, 0, 1]
+    removed_inside = False
+    saved = []          # per open context: (identities of the five bindings, armed, ml) at its entry
+    prev = list(INITIAL_IDS)
     for i, (op, st) in enumerate(zip(hist, steps)):
         k = kind(op)
         ids, cls = st["ids"], st["cls"]
         if "op_error" in st:
             return (f"operation {op} raised {st['op_error']}", i, None)
         if k == "arm":
-            armed, armed_inside = True, depth > 0
+            armed = True
         elif k == "act":
             ml = "M(" + ",".join(f"{m}:{n}" for m, n in adds_pairs(op[1])) + ")"
-            ml_inside = depth > 0
         elif k == "rm":
             armed, ml = False, None
-            armed_inside = ml_inside = False
             removed_inside = removed_inside or depth > 0
-            if depth == 0 and ids != [0, 1, 0, 1]:
+            if depth == 0 and ids != INITIAL_IDS:
                 return ("after removal with no context open the bindings are not the originals: "
                         f"{dict(zip(SLOTS, cls))}", i, None)
-            if depth == 0 and st.get("unp", "O") != "O":
-                return ("after removal with no context open pickle.Unpickler is still the environment's "
-                        "replacement class", i, None)
+        elif k == "mk":
+            if ids != prev:
+                return ("constructing a context manager (without entering it) changed the bindings: "
+                        f"{dict(zip(SLOTS, cls))}", i, None)
         elif k == "enter":
-            saved.append(prev)
+            saved.append((prev, armed, ml))
             depth += 1
             if ids[1:] != prev[1:]:
                 return (f"entering a context changed {dict(zip(SLOTS[1:], cls[1:]))}", i, None)
         elif k in ("leave", "leavex"):
-            before = saved.pop()
+            before, armed, ml = saved.pop()
             depth -= 1
-            if depth == 0:
-                # what was switched on inside stays "inside" (it was subject to this leave)
-                pass
-            if ids[0] != before[0]:
-                return (f"leaving ({k}) did not restore pickle.load to the binding in force immediately "
-                        f"before the matching enter: now {cls[0]}", i, None)
-            if ids[1:] != prev[1:]:
-                return (f"leaving ({k}) changed {dict(zip(SLOTS[1:], cls[1:]))}", i, None)
+            if ids != before:
+                wrong = [s for s, x, y in zip(SLOTS, ids, before) if x != y]
+                return (f"leaving ({k}) did not restore {wrong} to the binding(s) in force immediately "
+                        f"before the matching enter: now {dict(zip(SLOTS, cls))}", i, None)
         elif k == "probe":
             if ids != prev:
                 return ("a probe load changed the bindings", i, None)
@@ -297,18 +315,18 @@ def oracle(hist, steps, flags, base):
                 why = check_probe(cls[si], pr, pk, flags, base, SLOTS[si])
                 if why:
                     return (why, i, None)
-        # the ML environment covers all four entry points
-        for si in (1, 2, 3):
+        # the ML environment covers every entry point: no half state
+        for si in range(1, len(SLOTS)):
             want = ml or "O"
             if cls[si] != want:
-                return (f"{SLOTS[si]} is {cls[si]} but the ML environment state is {want}", i, None)
-        # a mechanism switched on and not removed => pickle.load is protected.  Recorded findings:
-        # the mechanism was switched on INSIDE a context that has been left since.
+                return (f"{SLOTS[si]} is {cls[si]} but the ML environment in force is {want}", i, None)
+        if cls[0] not in ("C", ml or "O"):
+            return (f"pickle.load is {cls[0]}: neither the checked loader nor the ML environment in force "
+                    f"({ml or 'none'})", i, None)
+        # a mechanism in force => pickle.load is protected
         if (armed or ml) and cls[0] == "O":
-            sig = ("activate-inside-context" if (ml and ml_inside) else
-                   "arm-inside-context" if (armed and armed_inside) else None)
-            return ("a protection is switched on and was not removed (global check=%s, ML=%s) but "
-                    "pickle.load is the original function" % (armed, ml), i, sig)
+            return ("a protection is in force (global check=%s, ML=%s) but pickle.load is the original "
+                    "function" % (armed, ml), i, None)
         # an open context => pickle.load is protected (unless hooks were removed inside it: the
         # property speaks of removal "with no context open" only)
         if depth == 0:
@@ -347,7 +365,7 @@ def shrink(hist, pickles, flags, sig, budget=40):
     def wellformed(h):
         d = 0
         for o in h:
-            if o == "enter":
+            if kind(o) == "enter":
                 d += 1
             elif o in ("leave", "leavex"):
                 d -= 1
@@ -377,8 +395,10 @@ def main(tier, seed):
                 "activate([fractions.Fraction]), remove, enter, leave, leave-by-exception}} with every "
                 "leave matched and nesting <= 3 (prefix-closed, so the probe matrix after the last step covers "
                 "every step); random: histories of length 6..40 over 5 addition sets incl. explicit probe "
-                "operations, each in a FRESH child, observed after every step.  Observed: identity class of the "
-                "four bindings + 4 entry points x 6 probe pickles (outcome, #globals resolved, sink calls).  "
+                "operations, managers constructed early and entered later, and one manager entered twice, "
+                f"+ {len(TARGETED)} targeted histories (switching on / removing inside a context; the two former "
+                "findings), each in a FRESH child, observed after every step.  Observed: identity class of the "
+                "five bindings + 5 entry points x 6 probe pickles (outcome, #globals resolved, sink calls).  "
                 "non-trivial = at least one binding not original; distinct by final binding classes + depth")
     built = chk.regen_and_build(["proofs/HooksProofs.vo"])
     if built:
@@ -394,9 +414,10 @@ def main(tier, seed):
                                   for gl, f in zip(PICKLE_GLOBALS, flags)]
     exh = enumerate_histories(maxlen)
     nrand = 28 if quick else 400
-    rnd = [random_history(chk.rng, 40) for _ in range(nrand)]
+    rnd = [list(h) for h in TARGETED] + [random_history(chk.rng, 40) for _ in range(nrand)]
     chk.stats["exhaustive_histories"] = len(exh)
-    chk.stats["random_histories"] = len(rnd)
+    chk.stats["targeted_histories"] = len(TARGETED)
+    chk.stats["random_histories"] = len(rnd) - len(TARGETED)
     chk.stats["random_length_mean"] = round(sum(map(len, rnd)) / max(1, len(rnd)), 1)
     nchunk = 14
     chunks = [exh[i::nchunk] for i in range(nchunk)]
@@ -443,19 +464,22 @@ def main(tier, seed):
     chk.exhaustive = False
     chk.extra["bounds"] = {"exhaustive_max_length": maxlen, "max_nesting": 3, "random_max_length": 40}
 
-    # ---- recorded findings: re-confirmed with the oracle on their witness histories ----
+    # ---- the property itself (model-free oracle) on the targeted histories, every run ----
     if ran:
-        for sig, hist in KNOWN_WITNESS.items():
-            k = chk.match_known(sig)
+        tfail = []
+        for hist in TARGETED:
             try:
                 r = full_oracle(hist, pickles, flags)
             except Exception as e:  # noqa: BLE001
                 r = (f"oracle crashed: {e}", 0, None)
-            if r and r[2] == sig and k:
+            k = chk.match_known(r[2]) if (r and r[2]) else None
+            if r and k:
                 chk.known_finding(k, f"[history {hist}: {r[0]}]")
-            elif r and not (r[2] == sig and k):
-                chk.oblige(f"witness history {hist} behaves as recorded", False, json.dumps(r))
-                bad.append({"history": hist, "step": r[1], "real": r[0], "model": "(witness)"})
+            elif r:
+                tfail.append({"history": hist, "step": r[1], "real": r[0], "model": "(oracle)"})
+        chk.oblige(f"oracle (model-free): the {len(TARGETED)} targeted histories satisfy the property",
+                   not tfail, json.dumps(tfail[:3]))
+        bad = tfail + bad
 
     def search():
         tried = set()
